@@ -2302,6 +2302,14 @@ func (c *leafCtx) translate7(ds *dirState, l leaf7Spec, fd *ast.FuncDecl, fset *
 			c.logVars[n] = true
 			return
 		}
+		if ot := opaqueType(t); ot != "" { // an opaque foreign object: its methods become function-typed externals (leaf8.go)
+			if c.opaque == nil {
+				c.opaque = map[string]string{}
+			}
+			c.opaque[n] = ot
+			c.logVars[n] = true // not counted as a parameter
+			return
+		}
 		lt := c.leanType(t)
 		if lt == "" {
 			c.fail("unsupported parameter type")
@@ -2535,6 +2543,7 @@ var leaves7 = []leaf7Spec{
 	// eighth generation: `for cond {}`, binary.BigEndian.Uint16(b[off:]), b[lo:hi] as a value
 	{"net/ntske", "ServerCookie.Decode", "ntske_ServerCookie_Decode", "LeafNtske"},
 	{"net/ntske", "EncryptedServerCookie.Decode", "ntske_EncryptedServerCookie_Decode", "LeafNtske"},
+	{"net/ntske", "ExportKeys", "ntske_ExportKeys", "LeafNtske"},
 	{"net/nts", "Authenticator.unpack", "nts_Authenticator_unpack", "LeafNts"},
 	{"net/nts", "UniqueIdentifier.unpack", "nts_UniqueIdentifier_unpack", "LeafNts"},
 	{"net/nts", "Cookie.unpack", "nts_Cookie_unpack", "LeafNts"},
